@@ -8,12 +8,12 @@ from cgv.net import Net, build, mkspec, wellformed
 
 META = {
     "level": "translation_validation",
-    "engine": "E1 artifact-level SMT: every original node of the transformed circuit is proved equal to the original for all valuations",
+    "engine": "E1 artifact-level SMT: every original node of the transformed circuit is proved equal to the original for all valuations; plus an E2 tier in which the circuit STRUCTURE itself is symbolic for limit_fanin/limit_fanout",
     "hashseeds": {"quick": [0, 1], "thorough": [0, 1, 2, 3, 4, 5, 6, 7]},
     "shards": {"quick": 8, "thorough": 2},
     "bounds": {
-        "quick": "F-unit with arity 1..8 (all 6 multi-input types), type pairs, fan-out stars with 1..8 loads, F-shape, F-bb, 30 random DAGs (<=12 gates); k=2..5; insert_registers stages 1..3 with every inserted flop made transparent; acyclic_unroll on every acyclic blackbox-free member; ALL input / blackbox-output valuations",
-        "thorough": "same + 300 random DAGs + 60 DAGs with 24 gates, 8 hash seeds",
+        "quick": "SYMBOLIC STRUCTURE (E2): limit_fanin / limit_fanout (k=2) run on EVERY lint-clean blackbox-free circuit over N=4 ordered names at once (presence, the 11 types, output flags and all forward edges are z3 variables; function preservation for all valuations, bound k and io decided per path by z3); plus E1 families: F-unit with arity 1..8 (all 6 multi-input types), type pairs, fan-out stars with 1..8 loads, F-shape, F-bb, 30 random DAGs (<=12 gates); k=2..5; insert_registers stages 1..3 with every inserted flop made transparent; acyclic_unroll on every acyclic blackbox-free member; ALL input / blackbox-output valuations",
+        "thorough": "symbolic structure N=4 (k=2) and N=5 (k=2,3); E1: same + 300 random DAGs + 60 DAGs with 24 gates, 8 hash seeds",
     },
     "outside": ["circuits outside the families", "k > 5", "hash seeds not listed", "num_stages for which round(max_depth/(stages+1)) == 0 (no stage boundary; the call raises)"],
     "assumptions": ["sem.py gate table (Kleene dual-rail when a constant x is present)", "z3 sound"],
@@ -55,12 +55,110 @@ def transparent(net, flop_type="ff", d="d", q="q"):
     return Net.from_spec(s)
 
 
+def sym_cases(ctx):
+    """symbolic-STRUCTURE tier (E2): every lint-clean blackbox-free circuit over N ordered names at once"""
+    out = []
+    for fn in ("limit_fanin", "limit_fanout"):
+        for N, k in ([(4, 2)] if ctx.quick else [(4, 2), (5, 2), (5, 3)]):
+            sb = 4 if N == 4 else 8
+            for j in [int(format(j, f"0{sb}b")[::-1], 2) for j in range(1 << sb)]:
+                out.append((("sym", fn, N, k, j), ("sym", fn, N, k, sb, j)))
+    return out
+
+
+SYM_TYPES = ["input", "0", "1", "buf", "not", "and", "nand", "or", "nor", "xor", "xnor"]
+
+
+def run_sym(ctx, cid, fn, N, k, sb, j):
+    import networkx as nx
+    import z3
+    from circuitgraph import tx
+    from cgv import e2, specs
+    from cgv import symgraph as sg
+    from cgv.symgraph import TS
+
+    U = [f"n{i}" for i in range(N)]
+    vars_ = sg.make_vars(U, self_loops=False)
+    P, T, O, E = vars_
+    A = e2.acc_pre(vars_)
+    pre = sg.base_pre(vars_, types=SYM_TYPES, dag_order=U)
+    pre.append(specs.legal_wiring(U, A.present, A.typ, A.edge))
+    for v in U:  # lint-clean: every gate is driven
+        pre.append(z3.Implies(z3.And(P[v], z3.Not(specs.is_in(T[v], [TS["input"], TS["0"], TS["1"]]))), z3.Or([E[(u, v)] for u in U if u != v])))
+    X = {n: z3.Bool(f"X!{n}") for n in U}
+    f = getattr(tx, fn)
+    idx = {n: i for i, n in enumerate(U)}
+    base_val = {}
+
+    def posts(pre_, post_unused, out, names, c, U=U, k=k, fn=fn):
+        if out.kind != "ok":
+            return [("returns", z3.BoolVal(False), f"{fn}:raises:{out.exc}", f"{fn}(k={k}) raised {out.exc}: {out.ret}")]
+        r = out.ret
+        if getattr(r.graph, "is_symbolic", False):
+            post = e2.acc_sym(r.graph)
+            pnames = r.graph.names()
+            concrete_edges = {kk for kk, vv in r.graph.wedge.items() if vv}
+        else:
+            st = sg.real_state(r)
+            post = e2.acc_real(st)
+            pnames = list(U) + [n for n in st[0] if n not in U]
+            concrete_edges = set(st[1])
+        created = [n for n in pnames if n not in U]
+
+        def possible(u, v):
+            if u in idx and v in idx:
+                return idx[u] < idx[v]
+            return (u, v) in concrete_edges
+        gg = nx.DiGraph()
+        gg.add_nodes_from(pnames)
+        gg.add_edges_from((u, v) for u in pnames for v in pnames if u != v and possible(u, v))
+        if not nx.is_directed_acyclic_graph(gg):
+            return [("acyclic", z3.BoolVal(False), f"{fn}:cyclic", f"{fn} produced a cycle")]
+        order = list(nx.lexicographical_topological_sort(gg))
+        Xp = dict(X)
+        Xp.update({n: z3.BoolVal(False) for n in created})
+        key = id(pre_)
+        if key not in base_val or getattr(pre_, "concrete", False):
+            v0 = specs.sym_values(U, pre_, X)
+            if not getattr(pre_, "concrete", False):
+                base_val[key] = v0
+        else:
+            v0 = base_val[key]
+        v1 = specs.sym_values(order, post, Xp, possible)
+        res = []
+        same = z3.And([z3.Implies(pre_.present(n), z3.And(post.present(n), v1[n] == v0[n])) for n in U])
+        res.append(("function-preserved", same, f"{fn}:function-changed", f"{fn}(k={k}) changed the function of an original node"))
+        io = z3.And([z3.Implies(pre_.present(n), z3.And(post.typ(n) == pre_.typ(n), post.out(n) == pre_.out(n))) for n in U]
+                    + [z3.Implies(post.present(n), z3.And(z3.Not(post.out(n)), post.typ(n) != TS["input"])) for n in created]
+                    + [z3.Implies(post.present(n), pre_.present(n)) for n in U])
+        res.append(("io-unchanged", io, f"{fn}:io-changed", f"{fn}(k={k}) changed inputs/outputs/types of original nodes"))
+        if fn == "limit_fanin":
+            bound = z3.And([specs.count(z3.And(post.present(u), post.edge(u, v)) for u in pnames if u != v) <= k for v in pnames])
+            res.append(("fanin-bound", bound, "limit_fanin:fanin-above-k", f"limit_fanin(k={k}) left a gate with more than {k} fan-in"))
+        else:
+            bound = z3.And([specs.count(z3.And(post.present(w), post.edge(v, w)) for w in pnames if w != v) <= k for v in pnames])
+            res.append(("fanout-bound", bound, "limit_fanout:fanout-above-k", f"limit_fanout(k={k}) left a node with more than {k} loads"))
+        return res
+
+    def conf_extra(out, rout, m):
+        if out.kind != "ok" or rout.kind != "ok":
+            return out.kind == rout.kind
+        a, b = sg.post_state(out.ret.graph, m), sg.real_state(rout.ret)
+        return sorted(t for t, _ in a[0].values()) == sorted(t for t, _ in b[0].values()) and len(a[1]) == len(b[1])
+
+    st = e2.run(ctx, f"{fn}-symbolic-structure", U, vars_, pre, {}, lambda c: f(c, k), posts, split=(sb, j), detail={"case": cid, "k": k}, compare_ret=False, conf_extra=conf_extra)
+    ctx.count("symbolic_structure_paths", st["owned"])
+
+
 def run(ctx):
     import circuitgraph as cg
     from circuitgraph import tx
 
     ctx.functions(tx.limit_fanin, tx.limit_fanout, tx.insert_registers, tx.acyclic_unroll)
-    for cid, spec in ctx.cases(all_cases(ctx)):
+    for cid, spec in ctx.cases(all_cases(ctx) + sym_cases(ctx)):
+        if spec[0] == "sym" if isinstance(spec, tuple) else False:
+            run_sym(ctx, cid, *spec[1:])
+            continue
         A = Net.from_spec(spec)
         if wellformed(A) or not A.is_acyclic():
             ctx.rejected("family member not lint-clean/acyclic")
